@@ -454,17 +454,30 @@ func c11e(c *Ctx) {
 			continue
 		}
 		seen[k] = true
-		if ok, why := wireEqual(w, p.Toks); !ok {
-			c.Bad("signature blob", v.Pos(v.Lit), "the verifier does not read the blob as the signer writes it: "+why)
-			return
-		}
 		if msg := unconsumedRoot(p.Toks); msg != "" {
 			c.Bad("signature blob", v.Pos(v.Lit), msg)
 			return
 		}
+		if !constsCompatible(w, p.Toks) {
+			// a verifier path for another key type (RSA logs): same layout, other algorithm constant
+			delete(seen, k)
+			other := append([]Tok{}, w...)
+			for i := range other {
+				other[i].Const = nil
+			}
+			if ok, why := wireEqual(other, p.Toks); !ok {
+				c.Bad("signature blob", v.Pos(v.Lit), "a verifier path reads a different blob layout: "+why)
+				return
+			}
+			continue
+		}
+		if ok, why := wireEqual(w, p.Toks); !ok {
+			c.Bad("signature blob", v.Pos(v.Lit), "the verifier does not read the blob as the signer writes it: "+why)
+			return
+		}
 	}
 	if len(seen) == 0 {
-		c.Unk("signature blob", "verifier has no successful path")
+		c.Bad("signature blob", v.Pos(v.Lit), "no verifier path accepts the algorithm constants the signer writes ("+toksString(w)+")")
 		return
 	}
 	c.add(Result{Instance: "signature blob", Verdict: Discharged, Evals: len(seen), Sites: []string{inj.Pos(inj.Decl), ds.Pos(ds.Decl), v.Pos(v.Lit)}, Detail: "written " + toksString(w) + " = read " + strings.Join(keys(seen), " / ")})
